@@ -72,8 +72,16 @@ fn parse_targets(v: &Value) -> Result<Vec<Target>, String> {
     Ok(out)
 }
 
-async fn run_case(case: &Value, targets: Vec<Target>, name: &str, id: Uuid, host: &str) -> Outcome {
+type Built = std::sync::Arc<(DynFilterAdapters, DynStrategyAdapter)>;
+
+/// Adapters are built ONCE per distinct configuration and shared by all cases of that configuration, the way one running router
+/// serves all its logins with the adapters it built at start-up (different players and host names meet the same instances).
+async fn run_case(case: &Value, targets: Vec<Target>, name: &str, id: Uuid, host: &str, cache: &mut HashMap<String, Built>) -> Outcome {
     let mut out = Outcome { filtered: vec![], chosen: "none".to_string(), error: String::new() };
+    let key = format!("{}|{}", case["filters"], case["strategy"]);
+    if let Some(b) = cache.get(&key).cloned() {
+        return decide(&b.0, &b.1, targets, name, id, host, out).await;
+    }
     // configuration -> adapter construction, exactly as passage::start does it
     let filters_cfg: Vec<config::OptionFilterAdapter> = match serde_json::from_value(decode(&case["filters"])) {
         Ok(c) => c,
@@ -103,6 +111,12 @@ async fn run_case(case: &Value, targets: Vec<Target>, name: &str, id: Uuid, host
             return out;
         }
     };
+    let b: Built = std::sync::Arc::new((filters, strategy));
+    cache.insert(key, b.clone());
+    decide(&b.0, &b.1, targets, name, id, host, out).await
+}
+
+async fn decide(filters: &DynFilterAdapters, strategy: &DynStrategyAdapter, targets: Vec<Target>, name: &str, id: Uuid, host: &str, mut out: Outcome) -> Outcome {
     let client: SocketAddr = "127.0.0.1:50000".parse().unwrap();
     let inputs = targets.clone();
     let filtered = match filters.filter(&client, (host, 25565), 769, (name, &id), targets).await {
@@ -151,6 +165,7 @@ pub fn main(args: &[String]) {
     let rd = BufReader::new(std::fs::File::open(&inp).expect("open --in"));
     let mut wr = BufWriter::new(std::fs::File::create(&outp).expect("create --out"));
     let mut n = 0usize;
+    let mut cache: HashMap<String, Built> = HashMap::new();
     for line in rd.lines() {
         let line = line.expect("read");
         if line.trim().is_empty() {
@@ -178,7 +193,7 @@ pub fn main(args: &[String]) {
             eprintln!("line {n}: host");
             std::process::exit(3)
         });
-        let res = catch_unwind(AssertUnwindSafe(|| rt.block_on(run_case(&case, targets, name, id, host))));
+        let res = catch_unwind(AssertUnwindSafe(|| rt.block_on(run_case(&case, targets, name, id, host, &mut cache))));
         let obs = match res {
             Ok(o) => json!({"line": n, "filtered": o.filtered, "chosen": o.chosen, "error": o.error, "panic": false}),
             Err(_) => json!({"line": n, "filtered": [], "chosen": "none", "error": "panic", "panic": true}),
